@@ -198,6 +198,7 @@ static std::string lwork(const LCfg & c, uint64_t seed, int shots, int t, int q,
   else { g.set_decay_category(G::DECAY_CATEGORY_DBD); g.set_decay_isotope(c.name); g.set_decay_dbd_level(c.level); g.set_decay_dbd_mode((bxdecay0::dbd_mode_type)c.mode); if (c.emax > 0) g.set_decay_dbd_esum_range(c.emin, c.emax); }
   Tape it; it.seed = seed; StepRandom ri(it, t, q, stepping); g.initialize(ri);
   std::string d; bxdecay0::event ev;
+  if (c.kind == "dbd") { double ta = g.get_to_all_events(); d.append((const char *)&ta, sizeof ta); } // what initialisation computed is part of what the instance produces
   for (int k = 0; k < shots; k++) { Tape tp; tp.seed = mix(seed, k + 1); StepRandom r(tp, t, q, stepping); g.shoot(r, ev); for (auto & p : ev.get_particles()) { double x[4] = {p.get_px(), p.get_py(), p.get_pz(), p.get_time()}; d.append((const char *)x, sizeof x); d.push_back((char)p.get_code()); } }
   return d;
 }
@@ -294,6 +295,26 @@ int main(int argc, char ** argv)
       }
     } else if (mode == "gen" || mode == "free") {
       long ncase = a.i("cases", thorough ? 400 : 40); g_patience_ms = 40;
+      if (mode == "free") {
+        // same configuration on every thread, for every double-beta entry of the lock-step pool (one per legacy mode) and a few background
+        // nuclides: two instances running the SAME code at the same time after a start barrier is what exposes unsynchronised function-level
+        // statics (lazy tables, caches in an integrand) to the race detector and to the solo comparison - initialisation included
+        auto & P = lpool(); std::vector<int> same; for (int i = 0; i < (int)P.size(); i++) if (P[i].kind == "dbd" || i % 9 == 0) same.push_back(i);
+        for (size_t k = shard; k < same.size(); k += nsh) {
+          const LCfg & c = P[same[k]]; int T = (k % 3 == 2) ? 4 : 2; std::vector<uint64_t> sd(T); for (int t = 0; t < T; t++) sd[t] = 1000 + 17 * k + t;
+          gsl_set_error_handler(&h0); g_h0_calls = 0; bxdecay0::verif::gauss_schedule_point = nullptr;
+          std::vector<std::string> seq(T), con(T); std::vector<std::thread> th; std::atomic<int> ready{0};
+          for (int t = 0; t < T; t++) th.emplace_back([&, t] { ready++; while (ready.load() < T) std::this_thread::yield(); try { con[t] = lwork(c, sd[t], 3, t, 1, false); } catch (std::exception & e) { con[t] = std::string("EXC:") + e.what(); } });
+          for (auto & x : th) x.join();
+          for (int t = 0; t < T; t++) { try { seq[t] = lwork(c, sd[t], 3, t, 1, false); } catch (std::exception & e) { seq[t] = std::string("EXC:") + e.what(); } }
+          rep.evaluations++;
+          std::string body = "\"same_config\":" + jstr(c.name + ":L" + std::to_string(c.level) + ":M" + std::to_string(c.mode)) + ",\"threads\":" + std::to_string(T);
+          bool same_ev = true; for (int t = 0; t < T; t++) if (seq[t] != con[t]) same_ev = false;
+          if (g_h0_calls.load()) { report("default-handler-invoked", "same configuration on " + std::to_string(T) + " threads: default GSL handler invoked", body); continue; }
+          if (!same_ev) { report("events-differ:" + c.name + ":M" + std::to_string(c.mode), c.name + " mode " + std::to_string(c.mode) + " initialised and shot on " + std::to_string(T) + " threads at the same time: an instance does not produce the events it produces alone", body); continue; }
+          rep.nt(body); rep.label("same-config:T" + std::to_string(T));
+        }
+      }
       for (long k = shard; k < ncase; k += nsh) {
         Rng r(mix(mix(seed, 0xC1202), k)); int T = r.range(2, 4), shots = r.range(1, 4);
         std::vector<int> cfg(T); std::vector<uint64_t> sd(T); for (int t = 0; t < T; t++) { cfg[t] = r.range(0, NGC - 1); sd[t] = r.next() % 100000; }
